@@ -3,6 +3,7 @@ C07 — range(a, b) is iter() restricted to a <= v <= b, empty when a > b, in ev
 -/
 import EnumToolsModel.Lemmas.Range
 import EnumToolsModel.Thm.C06
+import EnumToolsModel.Lemmas.TemplatesRun
 namespace ET.Thm
 
 /-- the specification, by positions -/
@@ -124,5 +125,56 @@ example : exD1.WF ∧ (rangeInit exD1 {} .table (-5) 126 = .ok (.cursor [-5, -4,
     (rangeInit exD1 {} .nextAndBack 127 (-10) = .ok (.nb (some 127) (some (-10)) 0)) ∧
     (rangeInit exD2 {} .range 254 255 = .ok (.cursor [254, 255])) := by
   refine ⟨exD1_WF, by decide, by decide, by decide, by decide⟩
+
+/-! ### the same statement about `range` as translated from /repo/src (`Generated/Templates.lean`) -/
+
+theorem rangeSlice_cursor (D : Derive) (si ei : Nat) (st : IterState Int) (hs : rangeSlice D si ei = .ok st) : ∃ l, st = .cursor l := by
+  unfold rangeSlice at hs
+  split at hs
+  · injection hs with e; exact ⟨_, e.symm⟩
+  · exact cursor_of_bind _ (fun l => l) st hs
+
+theorem rangeInit_cursor (D : Derive) (t : Target) (m : IterMode) (hm : m ≠ .nextAndBack) (a b : Int) (st : IterState Int)
+    (hi : rangeInit D t m a b = .ok st) : ∃ l, st = .cursor l := by
+  unfold rangeInit at hi
+  split at hi
+  · cases m with
+    | nextAndBack => exact absurd rfl hm
+    | range => exact cursor_of_bind _ (fun l => l) st hi
+    | table => exact rangeSlice_cursor D _ _ st hi
+    | auto => simp only at hi; injection hi with e; exact ⟨_, e.symm⟩
+    | tableInline => simp only at hi; injection hi with e; exact ⟨_, e.symm⟩
+  · cases m with
+    | nextAndBack => exact absurd rfl hm
+    | table =>
+      simp only at hi
+      cases hx : rangeIdx D t a b with
+      | ok p => rw [hx] at hi; exact rangeSlice_cursor D _ _ st hi
+      | panic w => rw [hx] at hi; simp at hi
+      | ub w => rw [hx] at hi; simp at hi
+    | range => simp only at hi; injection hi with e; exact ⟨_, e.symm⟩
+    | auto => simp only at hi; injection hi with e; exact ⟨_, e.symm⟩
+    | tableInline => simp only at hi; injection hi with e; exact ⟨_, e.symm⟩
+
+/-- `range(a, b)` as the source is written now: a cursor over `{v | a ≤ v ≤ b}` under every finite history,
+in every mode the macro accepts, also when `a > b` -/
+theorem C07_source (D : Derive) (tg : Target) (md : Modes) (h : D.WF) (ht : tg.WF)
+    (hm : md.iter = .range ∨ md.iter = .nextAndBack ∨ md.iter = .table) (hr : md.iter = .range → D.gapless = true)
+    (a b : Int) (ha : a ∈ D.vals) (hb : b ∈ D.vals) (ops : List Op) (fin : Fin) :
+    ∃ st st', T.range D tg md a b = .ok st ∧
+      T.runT D tg md st ops = .ok (st', (Cursor.run (spec.range D.sem a b) ops).2) ∧
+      T.finishT D tg md st' fin = .ok (Cursor.finish (Cursor.run (spec.range D.sem a b) ops).1 fin) := by
+  obtain ⟨st, hi, hsim⟩ := C07_init D tg h ht md.iter hm hr a b ha hb
+  have hmode : md.iter = .nextAndBack ∨ ∃ l', st = .cursor l' := by
+    by_cases hnb : md.iter = .nextAndBack
+    · exact Or.inl hnb
+    · exact Or.inr (rangeInit_cursor D tg md.iter hnb a b st hi)
+  obtain ⟨st', h1, h2⟩ := T.observeT D tg md h ht (stepFns_source D tg md h) st _ hsim hmode ops fin
+  have hm' : md.iter = .nextAndBack ∨ md.iter = .table ∨ (md.iter = .range ∧ D.gapless = true) := by
+    rcases hm with h1 | h1 | h1
+    · exact Or.inr (Or.inr ⟨h1, hr h1⟩)
+    · exact Or.inl h1
+    · exact Or.inr (Or.inl h1)
+  exact ⟨st, st', by rw [T.range_eq D tg md h ht a b ha hb hm']; exact hi, h1, h2⟩
 
 end ET.Thm
